@@ -581,6 +581,19 @@ def run(ctx):
             continue
         m = fn.trait_method()
         role = ROLE_BY_METHOD.get(m)
+        if role is None:
+            # a search in a helper (or in a public method that has no role of its own) takes the role of the operations
+            # that use it; a public method nobody with a role uses answers no question the properties ask
+            up = {ROLE_BY_METHOD[g.trait_method()] for g in prog.reaching_trait_methods(fn) if g is not fn and g.self_adt == fn.self_adt and g.trait_method() in ROLE_BY_METHOD}
+            up_m = sorted({g.trait_method() for g in prog.reaching_trait_methods(fn) if g is not fn and g.self_adt == fn.self_adt and g.trait_method() in ROLE_BY_METHOD})
+            if len(up) == 1:
+                role = up.pop()
+                if up_m == ['delete']:
+                    role = 'EXACT'      # the lookup inside delete: found -> its position, not found -> nothing
+            elif not up and fn.is_public_api():
+                for s_ in searches:
+                    ctx.add(RULE, fn, 'table', 'info', 'search in a public method without a role in the properties (%s): nothing demanded' % m, props, span_line(s_, fn.line), nontrivial=False)
+                continue
         props = PROPS_BY_FAMILY.get(fn.family, ['C13'])
         for s in searches:
             n += 1
